@@ -224,6 +224,15 @@ func GenCalls(g gen.G, w m.WorldM, n int) []Call {
 			files = append(files, fr)
 		}
 	}
+	// a window of consecutive offsets somewhere in a file: completion and hover at each
+	if n >= 6 && g.Chance(60) {
+		fr := files[g.Int(0, len(files)-1)]
+		start := fr.offs[g.Int(0, len(fr.offs)-1)]
+		for k := 0; k < 12; k++ {
+			out = append(out, Call{Kind: "completion", Path: fr.path, File: fr.name, Byte: start + k},
+				Call{Kind: "hover", Path: fr.path, File: fr.name, Byte: start + k})
+		}
+	}
 	for i := 0; i < n; i++ {
 		fr := files[g.Int(0, len(files)-1)]
 		off := fr.offs[g.Int(0, len(fr.offs)-1)]
